@@ -8,7 +8,8 @@ import typing_h as T
 TABLES = ["Kits", "Enzymes", "Enzymes3"]
 LAKE_TARGETS = ["Moclo.Props.C04", "Moclo.Tables.Kits", "Moclo.Tables.Enzymes", "Moclo.Tables.Enzymes3"]
 THEOREMS = ["Moclo.C04." + t for t in ["kit_classes_cut_aligned", "generic_classes_cut_aligned", "marks_and_sites", "accepted_record_fragments", "placeholder_target_tile", "placeholder_target_isRotated", "cutter_sites_plain", "no_inner_cut",
-                                       "three_prime_same_screen", "three_prime_fragments", "three_prime_tile", "three_prime_structures"]]
+                                       "three_prime_same_screen", "three_prime_fragments", "three_prime_tile", "three_prime_same_fragment",
+                                       "three_prime_structures"]]
 # reductions under which a failing case stays a case of this property (see shrink.py)
 SHRINK = {"strings": True}
 RULE = ("every concrete class of the five kits and generic classes over every enzyme geometry; records built "
